@@ -332,6 +332,9 @@ func (s *sourceAwareReader) Close() error {
 	for i := len(s.lower) - 1; i >= 0; i-- {
 		s.lower[i].Close() // releases resources only
 	}
+	if err != nil && s.src.srcErr != nil {
+		err = s.src.srcErr
+	}
 	return err
 }
 
